@@ -607,4 +607,61 @@ def ahInit : AhState := ⟨true, 0, 0⟩
 /-- `Provision`: thresholds below 1 are 1 -/
 def ahThreshold (n : Nat) : Nat := if n < 1 then 1 else n
 
+/-! ### dial addresses with placeholders: `fillDialInfo` after `Select`
+(hosts.go `Upstream.fillDialInfo`, reverseproxy.go `proxyLoopIteration`: `dialInfo, err :=
+upstream.fillDialInfo(repl); if err != nil { return true, … }`). The dial address of an upstream may
+carry placeholders; they are filled in per request, *after* the upstream has been selected, and
+the result must parse as a network address that stands for exactly one socket. If it does not, the
+iteration returns `done = true`: the request ends there (502 through `statusError`) — no round
+trip, no `countRequest`, no `countFailure`, no `tryAgain`, whatever `lb_retries` says; the policy
+has been called, so its counter and the draws have moved. `unf` = the positions of the upstreams
+whose dial address cannot be filled in for the request at hand. -/
+
+/-- how a request ends when dial addresses may be unfillable -/
+inductive DFin where
+  | fin (f : Final)
+  | dialInfo (i : Nat)   -- `making dial info: …` for the selected upstream i
+deriving DecidableEq, Repr
+
+/-- the state after an iteration that ended in `fillDialInfo`: only `Select` has run (and, with
+    dynamic upstreams, the deferred `hosts.Delete`) -/
+def afterDialInfo (c : PCfg) (s : PState) : PState :=
+  { afterSel c s with fails := dropFails c s.held s.fails }
+
+/-- the proxy loop for one request (not held at the backend) -/
+def attemptD (c : PCfg) (unf : List Nat) (get : Bool) : Nat → PErr → PState → List (Option Nat) × DFin × PState
+  | 0, prev, s =>
+    match selRes c s with
+    | .none => ([none], .fin (.status (statusOf (carried prev))), afterSel c s)
+    | .sel i =>
+      if unf.contains i then ([], .dialInfo i, afterDialInfo c s)
+      else if badAt c.ups i = 0 then ([], .fin (.sent i), afterSent c false s i)
+      else ([some i], .fin (.status 502), afterFail c s i)
+    | .starved => ([], .fin .starved, s)
+    | _ => ([], .fin .crashed, s)
+  | left + 1, prev, s =>
+    match selRes c s with
+    | .none =>
+      if tryAgain (left + 1) (carried prev) (retryable c get) then
+        (none :: (attemptD c unf get left (carried prev) (afterSel c s)).1,
+          (attemptD c unf get left (carried prev) (afterSel c s)).2)
+      else ([none], .fin (.status (statusOf (carried prev))), afterSel c s)
+    | .sel i =>
+      if unf.contains i then ([], .dialInfo i, afterDialInfo c s)
+      else if badAt c.ups i = 0 then ([], .fin (.sent i), afterSent c false s i)
+      else if tryAgain (left + 1) (errAt c i) (retryable c get) then
+        (some i :: (attemptD c unf get left (errAt c i) (afterFail c s i)).1,
+          (attemptD c unf get left (errAt c i) (afterFail c s i)).2)
+      else ([some i], .fin (.status 502), afterFail c s i)
+    | .starved => ([], .fin .starved, s)
+    | _ => ([], .fin .crashed, s)
+
+/-- a sequence of requests, each with its own set of unfillable dial addresses -/
+def drun (c : PCfg) : PState → List (Bool × List Nat) → List (List (Option Nat) × DFin) × PState
+  | s, [] => ([], s)
+  | s, (get, unf) :: rs =>
+    (((attemptD c unf get c.retries .none s).1, (attemptD c unf get c.retries .none s).2.1)
+        :: (drun c (attemptD c unf get c.retries .none s).2.2 rs).1,
+      (drun c (attemptD c unf get c.retries .none s).2.2 rs).2)
+
 end CaddyModel.C08
